@@ -865,3 +865,68 @@ SPECS["C03"] = _client_only(
     "abandonments.",
     _CLIENT_NOTE + "Without hook H3 a swap of close() and cancel() in ResponseGuard::drop would be invisible at poll "
     "granularity; with it the split op GuardClose/GuardCancel has an implementation counterpart.")
+
+
+SPECS["C02"] = {
+    "pid": "C02",
+    "coq_targets": ["Properties/C02.vo", "Checks/C02check.vo"],
+    "parts": [{
+        "name": "wake",
+        "harness": "cliw",
+        "cases_header": HDR.format(mods="Transport Client ClientS ClientWake Checks.C02check"),
+        "case_term": lambda c: f"({c['cfg']}, {c['ops']}, {c['obs']})",
+        "quick": {"count": 600},
+        "thorough": {"count": 20000},
+        "nontrivial": has("done:reply", "done:deadline", "done:connerr", "done:shutdown", "wire-cancel"),
+        "rule": "wake-driven scripts: external events (calls, abandonments, handle drops, responses, eof, clock steps, "
+                "readiness/flush changes, one-shot faults, drains, dispatch drop), most followed by a Settle op; no task "
+                "is ever polled explicitly: in a Settle the real dispatch and call futures are polled only if their real "
+                "waker fired (dispatch first, then calls in index order) until none is woken, while the model polls every "
+                "live task to a fixpoint; request buffer 1..3, in-flight limit 1..3, capacity 0..3; non-trivial = a caller "
+                "was actually resolved (reply, deadline, connection or shutdown error) or a cancellation was written during "
+                "some settle; distinct = distinct script text",
+    }],
+    "trusted_base": COMMON_TB + CLIENT_TB + [
+        "wake-driven harness (harness/src/cli.rs `settle`): per-task wake flags; every change of the scripted transport's "
+        "state force-wakes the dispatch (the transport's own waking is not under test); tarpc's own wake sources "
+        "(request queue, cancel queue, oneshots, DelayQueue timers, semaphore permits) are never forced",
+    ],
+    "level_text": "PARTIAL by nature. Proved about the model driven to quiescence (poll everything until nothing changes): "
+                  "C02_dead_resolved (after the dispatch failed or was dropped no call is left unresolved), "
+                  "C02_quiescent_resolved (on a writable transport a still-unresolved call waits only for a reply or a "
+                  "deadline: something is in flight, every timer lies in the future, its request is in flight or queued "
+                  "behind a full table), C02_poll_total (every dispatch poll returns within fuel linear in the queue "
+                  "lengths). That the real tasks are WOKEN whenever the model's fixpoint makes progress is checked, not "
+                  "proved: the wake-driven correspondence polls the real client only where its real wakers fired and "
+                  "requires exactly the model's outcomes after every settle; a lost wakeup shows up as a stall (the C02 "
+                  "monitor rejects a dispatch that failed with a caller left pending, and an unresolved call with "
+                  "nothing in flight on a writable transport).",
+    "level_note": _CLIENT_NOTE + "Not modelled: wake flags / registration discipline of tokio and futures primitives "
+                  "(assumed to follow their documented contracts), OS-thread scheduling, the server and handler tasks of "
+                  "the property's quantifier (the server's Requests stream is covered by its own correspondence only in "
+                  "explicit-poll mode).",
+    "design_ref": "DESIGN.md section 6 (C02), section 0",
+    "assumptions": ["a spurious wakeup is always allowed", "fewer than 2^64 operations",
+                    "request buffer and in-flight limit >= 1"],
+}
+
+
+# ---------------------------------------------------------------------------------------------
+# Translator side condition shared by C16 and C09: the panic-site inventory of the anchored
+# sources must equal the pinned, justified map tools/panic_sites.json.
+def panic_inventory():
+    import subprocess, sys
+    from . import vcheck as V
+    p = subprocess.run([sys.executable, os.path.join(V.ROOT, "tools", "panic_sites.py"), "--repo", V.REPO],
+                       stdout=subprocess.PIPE, stderr=subprocess.STDOUT, text=True)
+    return p.returncode == 0, p.stdout[-2500:]
+
+
+import os  # noqa: E402
+for _pid in ("C16", "C09"):
+    if _pid in SPECS:
+        SPECS[_pid].setdefault("side_conditions", []).append(("panic_site_inventory", panic_inventory))
+        SPECS[_pid]["trusted_base"] = SPECS[_pid]["trusted_base"] + [
+            "translator: tools/panic_sites.py lists every unwrap/expect/panic!/unreachable!/assert!/indexing/"
+            "modulo/DelayQueue insert/unchecked time arithmetic in the non-test code of the anchored files and "
+            "compares it with the pinned, justified map tools/panic_sites.json on every run"]
